@@ -14,8 +14,8 @@
                  operation passes the checked interpreter on every good heap (`opCmd_ok`).
 -/
 import Curtsies.Model.Heap
-namespace Curtsies
-open Curtsies.Heap
+namespace Curtsies.Heap
+open Curtsies
 
 structure Good (u : UEnv) (o : List Nat) (h : Heap) : Prop where
   fmtList : ∀ (r : Nat) (f : FmtObj), h.fmts[r]? = some f → f.chunks < h.lists.length
@@ -1638,4 +1638,4 @@ theorem opCmd_ok {u : UEnv} {o h} (g : Good u o h) (op : Op) (hl : opLive h op) 
     simp only [opCmd, if_neg hn]
     exact Std.pure g trivial
 
-end Curtsies
+end Curtsies.Heap
